@@ -195,6 +195,12 @@ theorem C06_source_std_sq (n : List ℕ) (h : 0 ≤ varpcN n) :
   rw [C06_source_stdpc_n]
   exact ⟨Real.sq_sqrt (by exact_mod_cast h), Real.sqrt_nonneg _⟩
 
+/-- `stdpc(array)` of the source counts the distinct elements and returns the same square root -/
+theorem C06_source_stdpc {β : Type} [DecidableEq β] (xs : List β) :
+    Generated.stdpc xs = Real.sqrt ((varpcN (counts xs) : ℚ) : ℝ) ∧
+    Generated.stdpc xs = Generated.stdpc_n (castCountsR (counts xs)) := by
+  rw [C06_source_stdpc_n]; exact ⟨gen_stdpc_eq xs, gen_stdpc_eq xs⟩
+
 /-- non-vacuity: counts (3, 2, 1) have a non-negative variance estimate -/
 example : 0 ≤ varpcN [3, 2, 1] := by decide +kernel
 
